@@ -209,6 +209,8 @@ def _call_entry(h, r, kind='no-exception'):
 
         def rule(u, v, *args):
             # deterministic user rule: one engine-chosen boolean per ordered pair (the digraph of successful contacts)
+            if cfg.get('fxn_args') and tuple(args) != DISCRETE_ARGS:
+                raise WrongUserArgs('test_transmission was called with extra arguments %r, the caller passed args=%r' % (tuple(args), DISCRETE_ARGS))
             if cfg.get('no_transmission'):
                 return False
             if (u, v) not in r.contacts:
@@ -225,7 +227,7 @@ def _call_entry(h, r, kind='no-exception'):
                 r.recov_calls.append((u, ans))
                 return ans
             kw['test_recovery'] = test_recovery
-        return h.call_must_succeed(kind, f, r.G, rule, (), **kw)
+        return h.call_must_succeed(kind, f, r.G, rule, DISCRETE_ARGS if cfg.get('fxn_args') else (), **kw)
     if entry in ('basic_discrete_SIR', 'percolation_based_discrete_SIR', 'basic_discrete_SIS'):
         kw.update(ic_kwargs(r, sir))
         r.p = symx.ENG.real('p', lo=0, hi=1) if cfg.get('p', 'sym') == 'sym' else cfg['p']
@@ -233,6 +235,7 @@ def _call_entry(h, r, kind='no-exception'):
     raise ValueError(entry)
 
 
+DISCRETE_ARGS = ('args-for-test_transmission', 0.25)
 TRANS_ARGS, REC_ARGS, JOINT_ARGS = ('args-for-trans_time_fxn', 0.7), ('args-for-rec_time_fxn', 3.0), ('args-for-trans_and_rec_time_fxn',)
 
 
